@@ -93,6 +93,17 @@ SUMMARY.update({
  "C20-c": ("C20", "messages.rs Block digest hashes the payload digests in sorted order", "two blocks differing only in payload order"),
 })
 
+SUMMARY.update({
+ "C02-f": ("C02", "core.rs commit: the stop check `ancestor.round <= last_committed_round` replaced by a genesis-QC check before the load", "a round gap directly after the node's last committed block (own chain orphaned by a view change): the committed block is delivered again"),
+ "C04-d": ("C04", "messages.rs TC::verify: duplicate-signer check keyed on (author, high_qc_round)", "a member signing several timeouts of one round with different high-QC rounds spliced into one TC"),
+ "C07-f": ("C07", "core.rs handle_proposal: early return for block.round <= last_voted_round after the QC/TC processing (sync replies are discarded)", "a missing ancestor arriving after the node voted / timed out in a round at or above it"),
+ "C08-e": ("C08", "core.rs handle_proposal: a proposal parked for missing batches is already written to the store; its children find it there", "B_r with a missing batch, then B_r+1 and B_r+2 before the batch arrives"),
+ "C09-e": ("C09", "core.rs handle_timeout: requests a proposal when timeout.high_qc.round + 1 == self.round and the node leads, even if it already proposed", "a timeout carrying QC_{r-1} reaching the leader of r after it proposed, with new payload in between"),
+ "C14-f": ("C14", "reliable_sender.rs keep_alive: replies paired with pending_replies.pop_back()", ">= 2 unacknowledged messages in flight on one connection"),
+ "C16-e": ("C16", "store: Write drains the waiters but keeps the empty queue; NotifyRead fast path queues behind any existing entry without a db lookup", "notify_read while absent, write, then a later notify_read of the same key"),
+ "C19-f": ("C19", "aggregator.rs cleanup: retain(k > round) instead of >=: partial quorums of the round just entered are dropped", "votes / timeouts for round r arriving before the node enters r"),
+})
+
 def confirmed(d):
     out = {}
     for tag in ("with", "without"):
